@@ -428,7 +428,7 @@ class MethodPropertyRule(MultiLanguageLintRule):  # thailint: ignore[srp,dry]
         if not context.file_content:
             return None
 
-        lines = context.file_content.splitlines()
+        lines = context.file_content.split("\n")
         if line <= 0 or line > len(lines):
             return None
 
